@@ -448,6 +448,12 @@ func VerifH_C13_Principal() {
 	malformed := false
 	if method == "PROPFIND" {
 		xmlBody, xmlBroken, rawBody, emptyBody, malformed = symPropfindBody(hdr)
+		if d, ok := symHeader("Depth", []string{"0", "1", "infinity"}); ok {
+			hdr["Depth"] = []string{d}
+			if d != "0" && d != "1" && d != "infinity" {
+				malformed = true
+			}
+		}
 		// an empty body means allprop, for the principal helper as well
 	}
 	path := opts.CurrentUserPrincipalPath
